@@ -538,6 +538,16 @@ class Sectionable(BaseObject):
 
             raise ValueError("Section named '%s' does not exist" % pathlist[0])
 
+        # The relative steps are also valid as last (or only) step of a path,
+        # e.g. the relative path from a Section to its parent is "..".
+        if pathlist[0] == "..":
+            if self.parent is None:
+                raise ValueError("Section '%s' has no parent" % self.get_path())
+            return self.parent
+
+        if pathlist[0] == ".":
+            return self
+
         return self._match_iterable(self.sections, pathlist[0])
 
     def find(self, key=None, type=None, findAll=False, include_subtype=False):
